@@ -18,12 +18,14 @@ for p in props:
     except Exception as e:
         mod, thms = None, []
     if not thms:
-        na.append(dict(property_id=pid, reason="not yet claimed: theorems for this property are still being proved (model, generator and oracle exist; see DESIGN.md)"))
+        na.append(dict(property_id=pid, reason="no theorem is registered for this property (see DESIGN.md)"))
         continue
     claimed.append(pid)
-    text = ("Lean 4 theorems (%d, kernel-checked, axioms audited on every run) over a functional model of the code quantify over every input/history the "
-            "property names; the model is tied to /repo on every run by a constants translator plus a differential correspondence run against the real crate, "
-            "and an independent Python oracle evaluates the property on the real crate's output. " % len(thms)) + PARTIAL.get(pid, "")
+    lead = (PARTIAL[pid] + " For the clauses that ARE proved: ") if pid in PARTIAL else ""
+    text = lead + ("Lean 4 theorems (%d, kernel-checked, axioms audited on every run) over a functional model of the code quantify over %s; "
+            "the model is tied to /repo on every run by translators that regenerate constants, source facts and the Lean terms of the byte-deciding code "
+            "(whose equality with the model is itself a theorem) plus a differential correspondence run against the real crate, "
+            "and an independent Python oracle evaluates the property on the real crate's output." % (len(thms), "the inputs / histories of those clauses" if pid in PARTIAL else "every input / history the property names"))
     checks.append(dict(property_id=pid, quick_cmd="./check %s --tier quick" % pid, thorough_cmd="./check %s --tier thorough" % pid,
         evidence_file="evidence/%s.json" % pid, replay_cmd_template="./check %s --replay {path}" % pid, engine="lean4-proof+correspondence",
         level_claimed=dict(category="proof", text=text, design_ref="DESIGN.md §5 " + pid),
